@@ -65,10 +65,11 @@ CHECKS = {
             "force field is compared entry by entry with an independent interpreter of the documented file formats; "
             "every Forcefield.get_params call inside a run is compared with that model; and every atom returned / "
             "written is compared with the model row looked up under a state name derived from generator ground truth "
-            "and the atoms present (never residue.ffname) - no row means absent from the PQR and reported unassigned.",
+            "and the atoms present (never residue.ffname) - no row means absent from the PQR and reported unassigned "
+            "(also for hetero groups beside a --ligand that neither the force field nor the MOL2 file knows).",
             "Trusted: the harness interpreter of dat.rst / xml-names.rst semantics; generator ground truth for chain "
             "ends; the parameter files themselves are the specification (an edited .DAT is a different force field, "
-            "not a violation).", "DESIGN.md#c01"),
+            "not a violation); a (residue, atom) pair listed twice in a .DAT has the values of its last line.", "DESIGN.md#c01"),
     "C02": ("exploration", "state-model monitor: per-residue charge sums of whole runs vs the formal charge of an independently derived final state at the generator's true chain position",
             "For every residue of every successful run whose atoms all received parameters, the sum of assigned "
             "charges (object values and PQR column) is compared at 1e-3 with the formal charge of the state derived "
@@ -97,7 +98,8 @@ CHECKS = {
     "C11": ("exploration", "history checker: PQR bytes of in-process run histories (forced A-B-A and A-fail-A) and of fresh processes under several hash seeds must equal a fresh-process reference; module-state fingerprint as witness material",
             "Every configuration of a random pool (structures x options incl. propka, user force fields, failing "
             "inputs) is run in new interpreters under PYTHONHASHSEED 0/1/2/random and inside in-process histories of "
-            "8-24 runs; every successful step must reproduce the fresh-process digest byte for byte. A deep "
+            "8-24 runs; every successful step must reproduce the fresh-process digest byte for byte (fresh-process "
+            "configurations include residues in which several rebuilt atoms bump at once, six hash seeds). A deep "
             "fingerprint of pdb2pqr module/class state is taken around every run and reported, but never decides.",
             "Trusted: sha1 of the PQR bytes; the observable is the PQR file only. Histories explore sequences of "
             "length <= 24 over pools of <= 5 configurations per case.", "DESIGN.md#c11"),
@@ -106,13 +108,14 @@ CHECKS = {
             "predecessor on the token text of x/y/z/charge/radius, atom order and (except for ffout) names; "
             "--drop-water output is compared byte for byte with the run on the water-stripped file; neutral-terminus "
             "runs are compared residue by residue with the charged run and the total shift with the termini that "
-            "were actually neutralised.",
+            "were actually neutralised. Walks also run on --ligand complexes (ligand not the last residue); "
+            "drop-water pairs include nucleic strands under both RNA naming styles.",
             "Trusted: the harness' PQR readers (columns / tokens). Runs that fail are C12's subject and only counted "
             "here.", "DESIGN.md#c09"),
     "C10": ("exploration", "differential execution monitor: one generated structure encoded as PDB and (by an independent writer) as mmCIF, both through the real main_driver, written atoms compared as multisets",
             "Every structure (with alt-locs, insertion codes, formal charges, 4-character names, several models, "
-            "negative coordinates, wwPDB-style label ids that differ from auth ids, both missing-value marker "
-            "conventions) is run twice; the multisets of (resName, resSeq, atom, x, y, z, charge, radius) token text "
+            "negative coordinates, wwPDB-style label ids that differ from auth ids, HETATM-flagged standard residues "
+            "inside polymer chains, both missing-value marker conventions) is run twice; the multisets of (resName, resSeq, atom, x, y, z, charge, radius) token text "
             "must be equal and the mmCIF-flavoured file must carry its trailer.",
             "Trusted: the harness' mmCIF writer (atom_site loop in wwPDB layout + header categories copied from "
             "tests/data/1FAS.cif). Only the installed mmcif-pdbx 2.1.0 is exercised.", "DESIGN.md#c10"),
@@ -121,7 +124,9 @@ CHECKS = {
             "equal to and 1e-9 around the pH; each group's final state (read off the atoms of the result) must be the "
             "titrated state iff the pH is on its side of the pKa and the independent force-field model has a row for "
             "every atom of that state at that position, otherwise the default state plus a warning record emitted "
-            "during the titration stage; sweeps require a non-increasing total and no disappearing residue.",
+            "during the titration stage; sweeps require a non-increasing total and no disappearing residue. Further "
+            "families: free cysteines 2.55-3.6 A from another sulfur, residues differing only by insertion code, chain "
+            "ends hidden inside one chain id with the real pKa source.",
             "Trusted: the stub's row schema (copied from a real PROPKA 3.5.1 run); support = complete rows in the "
             "independent force-field model. Known finding: terminal-group rows never reach the titration stage.",
             "DESIGN.md#c06"),
@@ -148,9 +153,11 @@ CHECKS = {
             "named atoms paired with those atoms' positions; every added atom's distances to its parent and the "
             "parent's neighbours at placement time are compared with the end state (2e-3 A), its parent bond length with "
             "the template within the fit's own residual, nearest heavy atom = parent, XH3 groups threefold, no "
-            "coincident atoms.",
+            "coincident atoms. The definitions built by the real loader are monitored as well: template X-H 0.90-1.15 A, "
+            "geminal H-X-H >= 100 deg, heavy bonds 1.15-1.90 A, every torsion a bonded path whose axis is no ring bond.",
             "Trusted: numpy SVD; own topology parse; tolerances 0.03 A + fit residual (fit-placed atoms), 0.15 A sanity "
-            "bound for sibling-completed atoms, 0.06 A for water O-H.", "DESIGN.md#c05"),
+            "bound for sibling-completed atoms, 0.06 A for water O-H; the plausibility envelope of the shipped templates "
+            "(a data slip would otherwise become 'what the template prescribes').", "DESIGN.md#c05"),
 }
 
 NOT_APPLICABLE = {}
